@@ -3,6 +3,7 @@ import Op2Proofs.SysLemmas
 import Op2Proofs.SysContent
 import Op2Proofs.SysGood
 import Op2Proofs.SysEquiv
+import Op2Proofs.SysAtomic
 import Op2Model.Vol
 import Op2Model.Clm
 /-!
@@ -124,6 +125,12 @@ theorem C13_interleaving_frame (objs : Sys) (i j : Nat) (o : OOp) (hij : j ≠ i
 theorem C13_refused_creation_changes_nothing (objs : Sys) (i : Nat) (d : DOp)
     (h : (Sys.step objs i (.derive d)).1 = some .failed) : (Sys.step objs i (.derive d)).2 = objs :=
   Sys.step_failed objs i d h
+
+/-- any refused request — a read, peek or seek out of bounds, a slice creation not contained in its parent, a request to an object
+    that does not exist — leaves the whole system exactly as it was (no invariant assumed, any argument) -/
+theorem C13_refused_request_changes_nothing (objs : Sys) (i : Nat) (o : OOp)
+    (h : (Sys.step objs i o).1 = some (.out .err) ∨ (Sys.step objs i o).1 = some .failed ∨ (Sys.step objs i o).1 = some .unsupported ∨
+         (Sys.step objs i o).1 = none) : (Sys.step objs i o).2 = objs := Sys.step_refused_noop objs i o h
 
 /-- **every interleaving**: what an object answers (bytes, results, the slices created from it) and where it ends up
     is what it would have answered and where it would have ended had its own requests been applied to it alone -/
